@@ -2,6 +2,7 @@ package vegeta
 
 import (
 	"bytes"
+	"net/http"
 	"errors"
 	"strings"
 )
@@ -54,7 +55,11 @@ func verif_harness_C16_http_targeter_bytes() {
 func verif_harness_C16_json_targeter_bytes() {
 	src := verifASCII("doc", verif_param("L"))
 	verif_alloc_limit(verifC16Budget + 64*len(src))
-	tr := NewJSONTargeter(bytes.NewReader(src), nil, nil)
+	var hdr http.Header
+	if verif_nondet_bool("default_headers") {
+		hdr = http.Header{"X-Default": {"1"}}
+	}
+	tr := NewJSONTargeter(bytes.NewReader(src), nil, hdr)
 	for k := 0; k < 3; k++ {
 		var t Target
 		if err := tr(&t); err != nil {
@@ -144,6 +149,47 @@ func verif_harness_C16_http_targeter_lines() {
 		var t Target
 		if err := tr(&t); err == nil {
 			verif_assert(t.Method != "" && t.URL != "", "C16.http-target-has-method-and-url")
+		}
+	}
+	verif_reach("done")
+}
+
+// C16 — the JSON-format targeter on structured lines: 1..2 / 1..3 lines chosen
+// among well-formed targets (with and without headers and body), truncated and
+// mistyped objects, blanks; with and without default headers and body. Called
+// again after errors; no call panics or hangs, memory stays within the budget.
+//
+//verif:harness param.L=1..2 thorough.param.L=1..3 unwind=64
+func verif_harness_C16_json_targeter_lines() {
+	kinds := []string{
+		`{"method":"GET","url":"http://a/"}`,
+		`{"method":"POST","url":"http://a/","header":{"A":["1","2"],"B":["3"]},"body":"aGk="}`,
+		`{"method":"GET","url":"http://a/","header":{}}`,
+		`{"method":"GET","url":"http://a/","header":null,"body":null}`,
+		`{"method":"GET"}`,
+		`{"url":"http://a/"}`,
+		`{"method":1,"url":[]}`,
+		`{"method":"GET","url":"http://a/"`,
+		`[]`,
+		`{"method":"GET","url":"http://a/","header":{"A":"1"}}`,
+		``,
+	}
+	L := verif_param("L")
+	doc := ""
+	for k := 0; k < L; k++ {
+		doc += kinds[verif_choose("line", len(kinds))] + "\n"
+	}
+	var hdr http.Header
+	var body []byte
+	if verif_nondet_bool("defaults") {
+		hdr, body = http.Header{"X-Default": {"1"}}, []byte("default")
+	}
+	verif_alloc_limit(verifC16Budget + 64*len(doc))
+	tr := NewJSONTargeter(strings.NewReader(doc), body, hdr)
+	for k := 0; k < 4; k++ {
+		var t Target
+		if err := tr(&t); err == nil {
+			verif_assert(t.Method != "" && t.URL != "", "C16.json-target-has-method-and-url")
 		}
 	}
 	verif_reach("done")
